@@ -171,7 +171,7 @@ func c15WireReal(w *W) { c15WireOn(w, []string{"tcp", "ipc", "tls+tcp"}) }
 
 func c15WireOn(w *W, trans []string) {
 	kind := allKinds[w.Choose(simrt.SShape, len(allKinds))]
-	tran := trans[w.Choose(simrt.SShape, len(trans))]
+	tran := w.simFallback(trans[w.Choose(simrt.SShape, len(trans))])
 	role := []string{"listen", "dial"}[w.Choose(simrt.SShape, 2)]
 	ipc := tran == "simipc" || tran == "ipc"
 	w.SetShape("kind", kind)
